@@ -507,8 +507,11 @@ def select(harnesses, prop, tier, only=None):
             continue
         if only and not re.search(only, h.name):
             continue
-        if tier == 'quick' and h.tier != 'quick' and not only:
-            continue
+        if tier == 'quick' and not only:
+            # quick tier: the cheap obligations whose PRIMARY property (first in the list) this is;
+            # the thorough tier runs every obligation that lists the property
+            if h.tier != 'quick' or (prop != 'ALL' and h.props[0] != prop):
+                continue
         sel.append(h)
     return sel
 
